@@ -371,6 +371,15 @@ fn one_case(r: &mut Rng, id: usize, out: &mut String) {
                     f.mat.column_mut(j).fill(0.0);
                 }
             }
+            // a row is a zero row when all its coefficients are zero -- not when some aggregate of coefficients and
+            // bias happens to vanish: rows whose bias cancels the sum of the absolute coefficients (x0 - 1, x0 + x1 - 2)
+            if !all && m > 0 && n > 0 && r.chance(1, 3) {
+                let i = r.below(m);
+                let sa: f64 = f.mat.row(i).iter().map(|v| v.abs()).sum();
+                if sa != 0.0 {
+                    f.bias[i] = if r.chance(3, 4) { -sa } else { sa };
+                }
+            }
             // rows / columns that are tiny but not zero (their squares underflow) are not zero rows / columns
             if !all && r.chance(1, 4) {
                 with_pts = false; // apply() rounds on such a map: decided on the coefficients
